@@ -125,6 +125,11 @@ def render(path, enc):
         steps.append(["g", "G20"])
         amap.append(None)
     for ai, st in enumerate(path):
+        if rel and enc.get("until") is not None and ai == enc["until"]:
+            # back to absolute positioning: the relative stretch was only a window
+            rel = False
+            steps.append(["g", "G90"])
+            amap.append(None)
         if ai == at and kind == "inch-then-mm":
             unit_in = False
             steps.append(["g", "G21"])
@@ -225,6 +230,8 @@ class C08(Monitor):
             enc["at"] = 0
         if kind in ("relative", "relative-inch") and rnd.random() < 0.4:
             enc["g90e"] = True        # both runs with the setting on; only the re-encoded one ever is in relative mode
+        if kind in ("relative", "relative-inch") and rnd.random() < 0.5 and enc["at"] + 2 < len(path):
+            enc["until"] = rnd.randrange(enc["at"] + 1, len(path))
         return dict(cls=kind, regions=regs, path=[list(p) for p in path], enc=enc)
 
     def check_case(self, case):
